@@ -28,7 +28,8 @@ TRACE = ("FaultTrace.tla", "FaultTrace.cfg")
 
 # cheapest first; the quick tier runs all of them when the measured budget
 # allows, else a prefix of this list (and says so in the stats)
-SCRIPTS = ["params", "trl", "lm", "e12", "t8", "load", "vnadata", "yaml", "t16"]
+SCRIPTS = ["params", "refuse", "ue14", "vnadata2", "trl", "calstore", "te10", "corr", "lm", "e12", "ue10",
+           "t8", "t8p3", "load", "bulk", "u16", "vnadata", "yaml", "t16"]
 QUICK_BUDGET_S = 120.0
 
 RESTART_RC = 95         # driver asks for a fresh process after a leaky episode
@@ -187,12 +188,12 @@ def run_fault(ctx, exe, tier, seed):
     chosen = list(names)
     skipped = []
     if tier == "quick":
-        # budget: the measured cost is ~ (driver 60 ms + TLC 0.4 ms/event)
-        # per fault point spread over the cores; keep the cheapest scripts
-        # exhaustively if everything does not fit
+        # budget: measured on this 16-core box (while it was heavily loaded by
+        # other checks) ~8 ms of driver time per fault point plus ~0.3 ms of
+        # TLC time per event, both already divided by the parallelism; keep
+        # the cheapest scripts, each exhaustively over k, if not all fit
         def est(s):
-            per = 0.060 + 0.0006 * (stats["steps"][s] + 3)
-            return counts[s] * per / max(1, vlib.NCPU // 2)
+            return counts[s] * (0.008 + 0.0003 * (stats["steps"][s] + 3))
         total = 0.0
         chosen = []
         for s in sorted(names, key=est):
@@ -202,6 +203,7 @@ def run_fault(ctx, exe, tier, seed):
             total += est(s)
             chosen.append(s)
         chosen.sort(key=names.index)
+        stats["estimated_s"] = round(total, 1)
     stats["skipped_in_this_tier"] = skipped
 
     jobs = []
